@@ -131,3 +131,26 @@ def twin_family():
         for idx in itertools.permutations(range(100, 100 + n), need):
             out.append((shape, idx, 'all', False))
     return out
+
+
+def nested_module(variant: int):
+    """a theory whose axioms contain one another (f a, f a -> f a, f a -> (f a -> f a), f a -> c) in one of several
+    declaration orders; every axiom is claimed and proved by loading it, plus two prop1 instances built on the stack"""
+    from proof_generation.proofs.propositional import Propositional
+    f, a, c = P.Symbol('f'), P.Symbol('a'), P.Symbol('c')
+    fa = P.App(f, a)
+    fa_fa = P.Implies(fa, fa)
+    fa_c = P.Implies(fa, c)
+    fa_fa_fa = P.Implies(fa, fa_fa)
+    fa_fa_c = P.Implies(fa_fa, c)
+    orders = [[fa_c, fa_fa_fa, fa_fa, fa], [fa, fa_fa, fa_fa_fa, fa_c], [fa_fa, fa, fa_c, fa_fa_fa], [P.neg(fa), fa, P._and(fa, c), c]]
+    m = ProofExp()
+    prop = m.import_module(Propositional())
+    m.add_axioms(orders[variant % len(orders)])
+    for ax in m.get_axioms():
+        m.add_claim(ax)
+        m.add_proof_expression(m.load_axiom(ax))
+    for p_, q_ in [(fa_fa_fa, a), (fa_c, fa_fa_c)]:
+        m.add_claim(P.Implies(p_, P.Implies(q_, p_)))
+        m.add_proof_expression(prop.prop1_inst(p_, q_))
+    return m
